@@ -364,6 +364,53 @@ func c13Body(r *vlib.Run) int {
 				good = false
 			}
 		}
+		// rotation of a followed file (truncation) followed by the end of that
+		// session during the reader's retry back-off, while another follow is
+		// queued: nobody's slot may be taken away.
+		if good && hi%3 == 0 {
+			for liveCount("tail") < tailL+1 {
+				open("tail")
+			}
+			good = quiesce()
+			var victim *c13Session
+			for _, s := range sessions {
+				if s.live && s.mode == "tail" && isOpenInServer(s) {
+					victim = s
+				}
+			}
+			if good && victim != nil {
+				os.Truncate(victim.file, 0)
+				hist = append(hist, fmt.Sprintf("truncate(tail#%d)", victim.id))
+				// the follower notices within its 3 s housekeeping interval and closes the file
+				deadline := time.Now().Add(12 * time.Second)
+				for isOpenInServer(victim) && time.Now().Before(deadline) {
+					time.Sleep(20 * time.Millisecond)
+				}
+				if !isOpenInServer(victim) {
+					r.Count("rotations_noticed_by_follower", 1)
+					time.Sleep(time.Duration(200+hrng.Intn(1300)) * time.Millisecond) // inside the 2 s back-off
+					hist = append(hist, fmt.Sprintf("cancel(tail#%d, during retry back-off)", victim.id))
+					victim.client.Close()
+					victim.live = false
+					good = quiesce()
+					if good {
+						open("tail")
+						open("tail")
+						good = quiesce()
+					}
+				} else {
+					// not noticed in time: leave the session alone
+					r.Count("rotations_not_noticed", 1)
+				}
+			}
+			smu.Lock()
+			ol := overLimit
+			smu.Unlock()
+			if good && ol != "" {
+				fail("more-files-read-than-the-limit", map[string]interface{}{"observation": ol})
+				good = false
+			}
+		}
 		// end: cancel everything, all slots must come back (nothing open)
 		for _, s := range sessions {
 			if s.live {
